@@ -242,6 +242,31 @@ theorem iterator_yields_whole_listing (pages : List (List (κ × ν))) (hne : pa
   · have := iterator_through_filter 0 keep (pagesOracle pages) pages.length 0 (by rw [hm]; intro e; cases e)
     rw [hm] at this; exact this
 
+/-- **readonly_ops_preserve_listing.** A read-only request (`resources/read`, `tools/call`, `prompts/get`,
+…) at most (re)builds the sorted index of a feature set (`lookupResourceHandler` walks
+`resourceTemplates.all()`): the index invariant is kept, nothing registered changes, and EVERY later
+list request — any page size ≥ 1, any cursor — is answered exactly as it would have been without it.
+(The code side: structural fact `paginate.sortedKeys_uses` — no function lets the index escape or
+re-sorts it.) -/
+theorem readonly_ops_preserve_listing (cod : Codec κ C) (s : FS κ ν) (h : WF s) :
+    WF s.sortKeys ∧ s.sortKeys.feats = s.feats ∧
+    ∀ (p : Nat), 1 ≤ p → ∀ cur, (paginate cod p s.sortKeys cur).2 = (paginate cod p s cur).2 := by
+  obtain ⟨w1, w2, _⟩ := wf_sortKeys s h
+  refine ⟨w1, w2, ?_⟩
+  intro p hp cur
+  obtain ⟨_, _, h1⟩ := paginate_spec cod p hp s h cur
+  obtain ⟨_, _, h2⟩ := paginate_spec cod p hp s.sortKeys w1 cur
+  rw [w2] at h2
+  rcases h1 with ⟨a1, a2, e1⟩ | ⟨a1, e1⟩ <;> rcases h2 with ⟨b1, b2, e2⟩ | ⟨b1, e2⟩
+  · rw [e1, e2]
+  · exfalso; rcases b1 with b | b
+    · exact a1 b
+    · rw [a2] at b; cases b
+  · exfalso; rcases a1 with a | a
+    · exact b1 a
+    · rw [b2] at a; cases a
+  · rw [e1, e2]
+
 /-! ### Non-vacuity -/
 
 instance : KOrd Nat where
